@@ -30,7 +30,7 @@ func c11BufferSizes(c *Ctx) {
 		return
 	}
 	m := c.machine()
-	dom := &fold.IntDom{Name: "a", Lo: -1 << 40, Hi: 1 << 40}
+	dom := &fold.IntDom{Name: "a", Lo: -bigLen(), Hi: bigLen()}
 	paths, err := m.ExploreCells(f, []*fold.IntDom{dom}, func(mm *fold.Machine, cells []fold.Int) []fold.Val {
 		return []fold.Val{cells[0], fold.Int{Lo: 1, Hi: 1 << 30, Name: "default"}}
 	}, nil)
